@@ -460,6 +460,33 @@ func runScenario(sc scenario) string {
 				}
 			}
 		}
+		// C19: a registration that meets descriptor exhaustion (dup(2) fails) delivers exactly one result, an error or a
+		// usable connection - never "success" with a dead one
+		if (sc.source == "engstop" || sc.source == "pkgstop") && sc.proto != "unix" && hoArmDupFault() {
+			if tl, err := net.Listen("tcp", "127.0.0.1:0"); err == nil {
+				go func() {
+					if c, err := tl.Accept(); err == nil {
+						time.Sleep(300 * time.Millisecond)
+						_ = c.Close()
+					}
+				}()
+				ch, err := s.eng.Register(gnet.NewNetAddrContext(context.Background(), tl.Addr()))
+				if err == nil {
+					select {
+					case r := <-ch:
+						if r.Err == nil && (r.Conn == nil || r.Conn.Fd() < 0 || r.Conn.RemoteAddr() == nil) {
+							util.Fail("C19: Register reported success but delivered an unusable connection although dup(2) had failed")
+						}
+						if r.Err == nil && r.Conn != nil {
+							_ = r.Conn.Close()
+						}
+					case <-time.After(3 * time.Second):
+						util.Fail("C19: Register delivered no result within 3 s after dup(2) failed")
+					}
+				}
+				_ = tl.Close()
+			}
+		}
 		// close one peer before the shutdown so that a peer-induced OnClose is in the trace
 		if len(peers) > 1 {
 			_ = peers[0].Close()
